@@ -383,6 +383,7 @@ func init() {
 					}
 				}
 				add(cacheIn{Cache: true, Case: c, Thr: 2, Seed: 81, MissPct: 0, DropPct: 0})
+				add(cacheIn{Cache: true, Case: c, Thr: 2, Seed: 181, MissPct: 0, DropPct: 0, Trunc: 60}) // some writes cut short: entries found with their payload lost
 				add(cacheIn{Cache: true, Case: c, Thr: 2, Seed: 82, MissPct: 30, DropPct: 0, Reuse: true})
 				// two generations of one cached builder (Reset in between): the second re-adds the same ids with OTHER values at
 				// the same positions and sizes -- it must answer for its own documents
@@ -426,6 +427,25 @@ func init() {
 				{A: []eAssign{{F: 0, V: tvInt("int", 1)}, {F: 1, V: tvInt("int", 2)}}}, {}}})
 			if kind == "kgroups" {
 				lateConfigCases(add)
+			}
+			// a retrieval that is REFUSED in a smaller size group after a larger one has matched (a range field that only
+			// one-field conjunctions use, assigned a text its holder cannot read), straight before ordinary retrievals:
+			// nothing of the refused one may show in their answers
+			{
+				sv := func(f int, s string) eExpr { return eExpr{F: f, Inc: true, V: tvStr(s)} }
+				c := eCase{Kind: kind, Policy: "error", Configs: map[int]string{2: "ext_range"}}
+				c.Docs = []eDoc{
+					{ID: 10, Cons: []eConj{{sv(0, "sport"), {F: 1, Inc: true, V: tvSlice("[]int", tvInt("int", 1))}}}},
+					{ID: 20, Cons: []eConj{{{F: 2, Inc: true, Op: 1, V: tvInt("int", 18)}}}},
+					{ID: 30, Cons: []eConj{{sv(0, "sport")}}},
+					{ID: 40, Cons: []eConj{{sv(0, "news"), {F: 1, Inc: true, V: tvSlice("[]int", tvInt("int", 1))}, {F: 3, Inc: true, V: tvStr("x")}}, {{F: 2, Inc: false, Op: 2, V: tvInt("int", 5)}}}},
+				}
+				bad := eQuery{A: []eAssign{{F: 0, V: tvStr("sport")}, {F: 1, V: tvInt("int", 1)}, {F: 2, V: tvStr("n/a")}}}
+				bad3 := eQuery{A: []eAssign{{F: 0, V: tvStr("news")}, {F: 1, V: tvInt("int", 1)}, {F: 3, V: tvStr("x")}, {F: 2, V: TV{T: "other:map"}}}}
+				for _, g := range []eQuery{{A: []eAssign{{F: 0, V: tvStr("sport")}}}, {A: []eAssign{{F: 2, V: tvInt("int", 30)}}}, {}, {A: []eAssign{{F: 0, V: tvStr("news")}, {F: 2, V: tvInt("int", 9)}}}} {
+					c.Queries = append(c.Queries, g, bad, g, bad3, g)
+				}
+				add(c)
 			}
 			// an ABANDONED generation: the first thing a fresh (or just reset) builder is handed is a document whose LATER
 			// conjunction is refused (its earlier ones are committed by then); the caller gives the feed up, Resets without
@@ -647,6 +667,7 @@ func init() {
 				}
 				c.Queries = append(c.Queries, eQuery{})
 				add(cacheIn{Cache: true, Case: c, Thr: 2, Seed: 5, MissPct: 0, DropPct: 0})
+				add(cacheIn{Cache: true, Case: c, Thr: 2, Seed: 105, MissPct: 0, DropPct: 0, Trunc: 60}) // some writes cut short: entries found with their payload lost
 				add(cacheIn{Cache: true, Case: c, Thr: 2, Seed: 6, MissPct: 30, DropPct: 0, Reuse: true})
 			}
 		},
